@@ -522,3 +522,136 @@ Proof.
   - exists (bit_len T). exact Hsv.
   - split; assumption.
 Qed.
+
+(* ---- the whole construction ---- *)
+
+Definition build_ops (R : list run) (L : N) : list bop := try_ops R ++ [BSetLen L].
+
+Lemma rlb_run_app m : forall o1 o2 b,
+  rlb_run m b (o1 ++ o2) =
+  (let* (b1, k1) := rlb_run m b o1 in let* (b2, k2) := rlb_run m b1 o2 in Ok (b2, k1 ++ k2)).
+Proof.
+  induction o1 as [|o o1 IH]; intros o2 b.
+  - cbn [app rlb_run bind]. destruct (rlb_run m b o2) as [[b2 k2]| |]; reflexivity.
+  - cbn [app rlb_run].
+    destruct (match o with
+              | BTrySet s l => rlb_try_set m b s l
+              | BSetLen l => let* b' := rlb_set_len m b l in Ok (b', true)
+              | BSetBit i => let* b' := rlb_set_bit_unchecked m b i in Ok (b', true)
+              end) as [[b' ok]| |]; cbn [bind]; try reflexivity.
+    rewrite IH. destruct (rlb_run m b' o1) as [[b1 k1]| |]; cbn [bind]; try reflexivity.
+    destruct (rlb_run m b1 o2) as [[b2 k2]| |]; reflexivity.
+Qed.
+
+Lemma rl_from_after_flush m b b1 :
+  rlb_flush m b = Ok b1 -> snd (b_run b1) = 0 -> rl_from m b = rl_from m b1.
+Proof. intros Hf H0. unfold rl_from. rewrite Hf, (flush_noop m b1 H0). reflexivity. Qed.
+
+Lemma maximal_from_len : forall rest cur, lenN (maximal_from cur rest) <= 1 + lenN rest.
+Proof.
+  unfold run in *. induction rest as [|[s l] rest IH]; intros cur; cbn [maximal_from].
+  - unfold lenN. cbn [length]. lia.
+  - rewrite (lenN_cons (s, l)). destruct (fst cur + snd cur =? s).
+    + specialize (IH (fst cur, snd cur + l)). lia.
+    + rewrite lenN_cons. specialize (IH (s, l)). lia.
+Qed.
+
+Lemma SInv_init : SInv (mkrlb 0 0 0 (0, 0) [] (mkiv 0 4 raw_new)) [].
+Proof.
+  unfold SInv. cbn [b_tail b_samples b_data concat annot].
+  split; [constructor|]. split; [constructor|]. split; [exact I|]. split; [reflexivity|]. split; [reflexivity|].
+  apply iv_rep_new. lia.
+Qed.
+Lemma PInv_init : PInv (mkrlb 0 0 0 (0, 0) [] (mkiv 0 4 raw_new)) [].
+Proof.
+  unfold PInv. cbn [b_len b_ones b_tail b_run concat fst snd rones].
+  split; [reflexivity|]. split; [reflexivity|]. split; [reflexivity|]. split; [lia|]. intros H; congruence.
+Qed.
+
+(* a builder whose pending run is (if any) flushed by From *)
+Lemma rl_from_spec m b BS L :
+  SInv b BS -> PInv b BS -> b_len b = L ->
+  lenN (concat BS ++ (if snd (b_run b) =? 0 then [] else [b_run b])) < 2 ^ 56 ->
+  exists v BS', rl_from m b = Ok v /\ rl_ok v BS' L /\
+    concat BS' = concat BS ++ (if snd (b_run b) =? 0 then [] else [b_run b]).
+Proof.
+  intros HS HP HL Hcnt. pose proof HP as (Hones & Hrun & Hlen & Htr & Hgap).
+  destruct (N.eqb_spec (snd (b_run b)) 0) as [Hz|Hnz].
+  - rewrite app_nil_r in Hcnt. destruct (rl_from_flushed m b BS L HS Hz) as (v & Hv & Hok); try lia.
+    exists v, BS. rewrite app_nil_r. auto.
+  - destruct (flush_spec m b BS HS HP Hnz) as (b1 & BS1 & Hf & HS1 & Hc & Hl1 & Ho1 & Hr1).
+    rewrite (rl_from_after_flush m b b1 Hf) by (rewrite Hr1; reflexivity).
+    pose proof HS1 as (_ & _ & _ & Htail1 & _).
+    destruct (rl_from_flushed m b1 BS1 L HS1) as (v & Hv & Hok); try lia.
+    + rewrite Hr1. reflexivity.
+    + rewrite Ho1, Hones, Hc, rones_app. cbn [rones]. lia.
+    + rewrite Htail1, Hc, runs_end_from_app. cbn [runs_end_from]. lia.
+    + rewrite Hc. exact Hcnt.
+    + exists v, BS1. auto.
+Qed.
+
+Lemma set_len_spec m b BS L :
+  SInv b BS -> PInv b BS -> b_len b <= L -> L < 2 ^ 64 ->
+  exists b' BS', rlb_set_len m b L = Ok b' /\ SInv b' BS' /\ PInv b' BS' /\ b_len b' = L /\
+    concat BS' ++ (if snd (b_run b') =? 0 then [] else [b_run b']) =
+    concat BS ++ (if snd (b_run b) =? 0 then [] else [b_run b]).
+Proof.
+  intros HS HP HL HL64. pose proof HP as (Hones & Hrun & Hlen & Htr & Hgap).
+  unfold rlb_set_len. destruct (N.ltb_spec (b_len b) L) as [Hlt|Hge].
+  - destruct (N.eqb_spec (snd (b_run b)) 0) as [Hz|Hnz].
+    + rewrite flush_noop by assumption. cbn [bind]. eexists. exists BS. split; [reflexivity|].
+      destruct HS as (H1 & H2 & H3 & Htail & H5 & H6).
+      split; [unfold SInv; cbn [b_tail b_samples b_data]; exact (conj H1 (conj H2 (conj H3 (conj Htail (conj H5 H6)))))|].
+      split; [unfold PInv; cbn [b_len b_ones b_tail b_run fst snd]; repeat split; lia|].
+      cbn [b_len b_run snd]. split; [reflexivity|]. reflexivity.
+    + destruct (flush_spec m b BS HS HP Hnz) as (b1 & BS1 & Hf & HS1 & Hc & Hl1 & Ho1 & Hr1).
+      rewrite Hf. cbn [bind]. eexists. exists BS1. split; [reflexivity|].
+      destruct HS1 as (H1 & H2 & H3 & Htail1 & H5 & H6).
+      split; [unfold SInv; cbn [b_tail b_samples b_data]; exact (conj H1 (conj H2 (conj H3 (conj Htail1 (conj H5 H6)))))|].
+      assert (Ht1 : b_tail b1 = b_len b).
+      { rewrite Htail1, Hc, runs_end_from_app. cbn [runs_end_from]. exact Hrun. }
+      split.
+      { unfold PInv. cbn [b_len b_ones b_tail b_run fst snd]. rewrite Ho1, Hones, Hc, rones_app. cbn [rones].
+        repeat split; lia. }
+      cbn [b_len b_run snd]. split; [reflexivity|]. change (0 =? 0) with true. cbn iota.
+      rewrite app_nil_r. exact Hc.
+  - exists b, BS. split; [reflexivity|]. split; [assumption|]. split; [assumption|]. split; [lia|reflexivity].
+Qed.
+
+Theorem rl_build_ok m R L :
+  runs_srt 0 R -> runs_end_from 0 R <= L -> L < 2 ^ 64 -> lenN R < 2 ^ 56 ->
+  exists v BS, rl_build m (build_ops R L) = Ok (v, all_true R ++ [true]) /\ rl_ok v BS L /\ concat BS = maximal R.
+Proof.
+  intros Hsrt Hend HL Hcnt. unfold rl_build, rlb_new, build_ops.
+  destruct (iv_rep_new 4 ltac:(lia)) as (Hnew & _). change rl_CODE_SIZE with 4. rewrite Hnew.
+  cbn [unwrap_opt bind]. rewrite rlb_run_app.
+  set (b0 := mkrlb 0 0 0 (0, 0) [] (mkiv 0 4 raw_new)).
+  assert (Hmid : exists b1 BS1, rlb_run m b0 (try_ops R) = Ok (b1, all_true R) /\ SInv b1 BS1 /\ PInv b1 BS1 /\
+            b_len b1 = runs_end_from 0 R /\
+            concat BS1 ++ (if snd (b_run b1) =? 0 then [] else [b_run b1]) = maximal R).
+  { destruct R as [|[s l] rest].
+    - exists b0, []. cbn [try_ops map rlb_run all_true]. split; [reflexivity|].
+      split; [apply SInv_init|]. split; [apply PInv_init|]. split; reflexivity.
+    - cbn [runs_srt fst snd] in Hsrt. destruct Hsrt as (Hs & Hl & Hsrt). cbn [runs_end_from fst snd] in Hend.
+      pose proof (runs_srt_end _ _ Hsrt) as Hge.
+      destruct (try_set_spec m b0 [] s l SInv_init PInv_init) as (b1 & BS1 & Ht & HS1 & HP1 & Hp1 & Hl1 & Hcase);
+        [cbn [b_len b0]; lia|lia|lia|].
+      cbn [b_run b0 snd] in Hcase. change (0 =? 0) with true in Hcase. cbn iota in Hcase.
+      destruct Hcase as [-> Hr1].
+      rewrite <- Hl1 in Hsrt.
+      destruct (build_runs m rest b1 [] HS1 HP1 Hp1 Hsrt) as (b2 & BS2 & Hr & HS2 & HP2 & Hp2 & Hc2 & Hl2); [rewrite Hl1; lia|].
+      exists b2, BS2. cbn [try_ops map rlb_run fst snd]. rewrite Ht. cbn [bind].
+      fold (try_ops rest). rewrite Hr. cbn [bind].
+      split; [reflexivity|]. split; [assumption|]. split; [assumption|].
+      split; [rewrite Hl2, Hl1; reflexivity|].
+      replace (snd (b_run b2) =? 0) with false by lia. rewrite Hc2, Hr1. reflexivity. }
+  destruct Hmid as (b1 & BS1 & Hrun1 & HS1 & HP1 & Hl1 & Hc1). rewrite Hrun1. cbn [bind].
+  destruct (set_len_spec m b1 BS1 L HS1 HP1 ltac:(lia) HL) as (b2 & BS2 & Hsl & HS2 & HP2 & Hl2 & Hc2).
+  cbn [rlb_run]. rewrite Hsl. cbn [bind].
+  assert (Hmax : lenN (maximal R) <= lenN R).
+  { destruct R as [|r rest]; [cbn [maximal]; lia|]. cbn [maximal]. rewrite lenN_cons. apply maximal_from_len. }
+  destruct (rl_from_spec m b2 BS2 L HS2 HP2 Hl2) as (v & BS3 & Hv & Hok & Hc3).
+  { rewrite Hc2, Hc1. unfold run in *. lia. }
+  rewrite Hv. cbn [bind]. exists v, BS3. split; [reflexivity|]. split; [assumption|].
+  rewrite Hc3, Hc2, Hc1. reflexivity.
+Qed.
